@@ -155,6 +155,7 @@ def run_script(sc, sudachipy, dic=None, point=None, pretoks=None):
         pretoks = (dic.pre_tokenizer(mode="C", handler=lambda i, s_, ml: [m.surface() for m in ml]), dic.pre_tokenizer(mode="C"))
     slots = [None] * sc["n_slots"]      # (list, fill id, text)
     handed_out = [[] for _ in range(sc["n_slots"])]
+    iters = [None] * sc["n_slots"]
     # input-sharing groups of live list objects (Morpheme.split results share their parent's input): when a
     # list is used as an output parameter every other member of its group becomes stale (documented)
     group_of = {}
@@ -342,6 +343,35 @@ def run_script(sc, sudachipy, dic=None, point=None, pretoks=None):
                 stats["values"] += 1
                 if (None if g_ is None else list(g_)) != op["expect"]:
                     raise Mismatch("result-differs-from-core", "pos_of", {"id": op["id"], "python": repr(g_)[:200], "core": op["expect"]})
+            elif kind == "iter_hold":
+                src = slots[op["list"]]
+                if src is None or id(src[0]) in stale:
+                    stats["skipped"] += 1
+                    continue
+                it = iter(src[0])
+                for _ in range(min(op["consume"], len(src[0]))):
+                    next(it)
+                iters[op["list"]] = (it, src[0])
+            elif kind == "iter_resume":
+                ent = iters[op["list"]]
+                iters[op["list"]] = None
+                if ent is None or id(ent[1]) in stale:
+                    stats["skipped"] += 1
+                    continue
+                it, lst = ent
+                got = 0
+                for m in it:
+                    got += 1
+                    if got > 100000:
+                        raise Mismatch("result-differs-from-core", "iterator-does-not-end", {})
+                    try:
+                        here = (m.begin(), m.end(), m.word_id(), m.surface(), m.part_of_speech_id(), len(m))
+                    except BaseException as ex:  # noqa
+                        raise Mismatch("unexpected-exception", "iterator-yielded-unusable-morpheme:" + type(ex).__name__,
+                                       {"message": str(ex)[:200], "yielded": got, "len": len(lst)})
+                    if not any(here[:3] == (x.begin(), x.end(), x.word_id()) for x in lst):
+                        raise Mismatch("result-differs-from-core", "iterator-yielded-foreign-morpheme", {"yielded": got, "len": len(lst)})
+                stats["values"] += got
             elif kind == "misuse":
                 tok, tspec = toks[op["t"]]
                 try:
